@@ -6,6 +6,7 @@ mod rng;
 mod runner;
 mod shadow;
 mod sim;
+mod train;
 mod world;
 
 use std::cell::RefCell;
